@@ -26,14 +26,13 @@ import (
 
 // pullEvent is one served pull of the shared source.
 type pullEvent struct {
-	Leg     int      `json:"leg"`     // canonical leg name 1..N (order of first arrival, ties by goroutine id)
+	Leg     int      `json:"leg"`     // canonical leg name 1..N (order of first service)
 	Objects []string `json:"objects"` // object ids handed out during this pull (empty = end of stream)
 }
 
 type gate struct {
 	site     string // the hook site that is gated
-	schedule []int  // preferred leg for the i-th data-carrying pull
-	fallback []int  // preference order when the preferred leg is not parked
+	schedule []int  // preferred leg (named in order of first service) for the i-th served pull
 
 	mu      sync.Mutex
 	parked  map[int64]chan struct{}
@@ -116,13 +115,9 @@ func parseBusy(b []byte, self int64) (busy, total int) {
 	return
 }
 
-func newGate(site string, schedule []int, nlegs int) *gate {
-	g := &gate{site: site, schedule: schedule, parked: map[int64]chan struct{}{}, names: map[int64]int{},
+func newGate(site string, schedule []int) *gate {
+	return &gate{site: site, schedule: schedule, parked: map[int64]chan struct{}{}, names: map[int64]int{},
 		stop: make(chan struct{}), done: make(chan struct{})}
-	for i := 1; i <= nlegs; i++ {
-		g.fallback = append(g.fallback, i)
-	}
-	return g
 }
 
 func (g *gate) hook(site string, args ...any) {
@@ -199,34 +194,43 @@ func (g *gate) control() {
 			continue
 		}
 		idle = 0
-		// Name newcomers in goroutine-id order.
+		// Legs are named in order of first service.  The schedule asks either for
+		// an already named leg or (name = number of named legs + 1) for a fresh
+		// one; a fresh leg is the parked unnamed goroutine with the smallest id.
+		byName := map[int]int64{}
 		var fresh []int64
 		for id := range g.parked {
-			if _, ok := g.names[id]; !ok {
+			if n, ok := g.names[id]; ok {
+				byName[n] = id
+			} else {
 				fresh = append(fresh, id)
 			}
 		}
 		sort.Slice(fresh, func(i, j int) bool { return fresh[i] < fresh[j] })
-		for _, id := range fresh {
-			g.names[id] = len(g.names) + 1
-		}
-		byName := map[int]int64{}
-		for id := range g.parked {
-			byName[g.names[id]] = id
-		}
+		next := len(g.names) + 1
 		pick := 0
 		if g.served < len(g.schedule) {
-			if _, ok := byName[g.schedule[g.served]]; ok {
-				pick = g.schedule[g.served]
+			want := g.schedule[g.served]
+			if _, ok := byName[want]; ok {
+				pick = want
+			} else if want >= next && len(fresh) > 0 {
+				pick = next
 			}
 		}
 		if pick == 0 {
-			for n := 1; n <= len(g.names); n++ {
+			for n := 1; n < next; n++ {
 				if _, ok := byName[n]; ok {
 					pick = n
 					break
 				}
 			}
+			if pick == 0 {
+				pick = next
+			}
+		}
+		if pick == next {
+			g.names[fresh[0]] = next
+			byName[next] = fresh[0]
 		}
 		id := byName[pick]
 		ch := g.parked[id]
